@@ -476,6 +476,65 @@ theorem Add_param {a : DDSketch M (GPS grow)} {b : DDSketch M Store} (h : SkSim 
   exact AddWithCount_param h v (.fin 1) hp hn
 
 
+/-- `MergeWith`: same error (mapping mismatch or nil), related receivers -/
+theorem MergeWith_param {a a' : DDSketch M (GPS grow)} {b b' : DDSketch M Store} (h : SkSim a b)
+    (h' : SkSim a' b') :
+    (DDSketch.MergeWith a a').2 = (DDSketch.MergeWith b b').2 ∧
+      SkSim (DDSketch.MergeWith a a').1 (DDSketch.MergeWith b b').1 := by
+  unfold DDSketch.MergeWith
+  rw [h.map, h'.map]
+  by_cases he : (!(MapI.Equals b.IndexMapping b'.IndexMapping)) = true
+  · simp only [he, if_true]
+    exact ⟨trivial, h⟩
+  · simp only [he, Bool.false_eq_true, if_false]
+    refine ⟨trivial, ⟨rfl, sim_mergeWith h.pos h'.pos, sim_mergeWith h.neg h'.neg, ?_⟩⟩
+    show F64.add a.zeroCount a'.zeroCount = F64.add b.zeroCount b'.zeroCount
+    rw [h.zero, h'.zero]
+
+/-- `Reweight`: same error, related receivers, for every float factor -/
+theorem Reweight_param {a : DDSketch M (GPS grow)} {b : DDSketch M Store} (h : SkSim a b) (w : F64) :
+    (DDSketch.Reweight a w).2 = (DDSketch.Reweight b w).2 ∧
+      SkSim (DDSketch.Reweight a w).1 (DDSketch.Reweight b w).1 := by
+  cases a with
+  | mk ma pa na za =>
+  cases b with
+  | mk mb pb nb zb =>
+  obtain ⟨hm, hpos, hneg, hz⟩ := h
+  simp only at hm hz hpos hneg
+  subst hm hz
+  unfold DDSketch.Reweight
+  dsimp only
+  by_cases h0 : F64.le w (.fin 0) = true
+  · simp only [h0, if_true]
+    exact ⟨trivial, ⟨rfl, hpos, hneg, rfl⟩⟩
+  · simp only [h0, Bool.false_eq_true, if_false]
+    by_cases h1 : F64.eq w (.fin 1) = true
+    · simp only [h1, if_true]
+      exact ⟨trivial, ⟨rfl, hpos, hneg, rfl⟩⟩
+    · simp only [h1, Bool.false_eq_true, if_false]
+      obtain ⟨e1, s1⟩ := sim_reweight hpos w
+      obtain ⟨e2, s2⟩ := sim_reweight hneg w
+      generalize (StoreI.Reweight pa w : GPS grow × GoErr) = ra at e1 s1
+      generalize (StoreI.Reweight pb w : Store × GoErr) = rb at e1 s1
+      generalize (StoreI.Reweight na w : GPS grow × GoErr) = rna at e2 s2
+      generalize (StoreI.Reweight nb w : Store × GoErr) = rnb at e2 s2
+      obtain ⟨ta, ea⟩ := ra
+      obtain ⟨tb, eb⟩ := rb
+      obtain ⟨tna, ena⟩ := rna
+      obtain ⟨tnb, enb⟩ := rnb
+      simp only at e1 s1 e2 s2
+      subst e1 e2
+      dsimp only
+      by_cases h2 : (ea != GoErr.nil) = true
+      · simp only [h2, if_true]
+        exact ⟨trivial, ⟨rfl, s1, hneg, rfl⟩⟩
+      · simp only [h2, Bool.false_eq_true, if_false]
+        by_cases h3 : (ena != GoErr.nil) = true
+        · simp only [h3, if_true]
+          exact ⟨trivial, ⟨rfl, s1, s2, rfl⟩⟩
+        · simp only [h3, Bool.false_eq_true, if_false]
+          exact ⟨trivial, ⟨rfl, s1, s2, rfl⟩⟩
+
 /-- `Add`/`AddWithCount` never change the mapping object -/
 theorem AddWithCount_mapping {S : Type} [StoreI S] [Inhabited S] (g : DDSketch M S) (v c : F64) :
     (DDSketch.AddWithCount g v c).1.IndexMapping = g.IndexMapping := by
